@@ -45,6 +45,9 @@ THEOREMS = [
     "AiuVerif.C13.stage_pass_keep",
     "AiuVerif.C13.stage_pass_drop",
     "AiuVerif.C13.concurrent_preps_correct",
+    "AiuVerif.C13.prepIvs_sorted_of_sorted_stream",
+    "AiuVerif.C13.concurrent_preps_correct_of_sorted_stream",
+    "AiuVerif.C13.inFlightBefore_is_left_limit",
 ]
 RULE = ("event streams for the queueing_counter stage: exhaustive start-sorted families of up to 4 (quick) / 5 "
         "(thorough) Prep intervals with endpoints in {0..5} x keep_prep on/off; random structured streams with "
@@ -59,8 +62,9 @@ TRUSTED = ["regular expression `Cmpt Prep$` is modelled as: name ends with 'Cmpt
 ASSUMPTIONS = ["Prep slices of one rank reach the stage sorted by start (provided by mp_sync_tight / the ingestion "
                "merge in the real pipeline; a hypothesis of the theorems; observed, not proved, in the e2e runs)",
                "Prep slices have dur > 0"]
-NOT_YET_PROVED = ["pipeline-level sortedness of the stage input (mp_sync_tight drain order) is observed by the e2e "
-                  "oracle only, not proved"]
+NOT_YET_PROVED = ["that MpSyncTightContext.drain hands the stage a ts-sorted stream (Python list.sort in the stage before) is not "
+                  "modelled: observed by the e2e oracle only; the step from a ts-sorted stream to the per-rank hypothesis of "
+                  "sweep_correct is proved (prepIvs_sorted_of_sorted_stream)"]
 
 DIALS = ["na", "nj", "uj", "nd", "fx", "to"]
 _jobs = {}
